@@ -239,6 +239,9 @@ inductive Act where
   | wake (i : Nat)
   /-- janitor / LRU / reject-route family removal drops a cache entry -/
   | evict (k : Key)
+  /-- `GetPackedResponseWithApproximateTTL` re-packs an entry whose TTL has drifted by more than the
+  refresh threshold, with the qname of the request at hand: same name and type, another spelling -/
+  | respell (k : Key) (sp : Nat)
   /-- optimistic cache: `backgroundRefresh` started for a stale entry served to client `i` finishes its
   upstream exchange (`dialSend` with `needResp = false`): only the cache can change -/
   | refresh (i : Nat) (sch : Scheme) (a1 a2 : Att)
@@ -305,6 +308,8 @@ def step (cfg : Cfg) (s : St) : Act → St
       | none => s
     | _, _ => s
   | .evict k => { s with cache := erase s.cache k }
+  | .respell k sp =>
+    { s with cache := s.cache.map fun p => if p.1 == k then (p.1, { p.2 with q := { p.2.q with spell := sp } }) else p }
   | .refresh i sch a1 a2 =>
     match s.clients[i]? with
     | some c => { s with cache := (dialSend cfg c sch a1 a2 s.cache).2 }
